@@ -4,5 +4,5 @@ set -e
 P=$1; W=/tmp/seed-$P${2:+-$2}
 git -C /repo worktree add --detach "$W" HEAD >/dev/null 2>&1
 mkdir -p "$W/seeds/.site"; echo 'import random; random.seed(20260927)' > "$W/seeds/.site/sitecustomize.py"
-/verif/tools/seed_prompt.py "$P" "$W" > "$W.prompt"
+/verif/tools/seed_prompt.py "$P" "$W" ${2:-} > "$W.prompt"
 echo "$W"
